@@ -22,4 +22,9 @@ TEXT = {
         "note": "Trusted: Lean kernel (+3 standard axioms), harness/abs/driver tie, rns.Resolve and json.Valid as oracle inputs, '/'-splitting of raw keys (bech32 addresses are '/'-free).",
         "technique": "Lean 4 invariant + one-step inbox characterisations + per-step model/implementation correspondence",
     },
+    "C13": {
+        "level": "Theorems over an exact model of sdk.Dec and of BlockMint, for every state, every valid parameter set and every run length: the emission is non-negative and at most the previous block's (C13_next_nonneg, C13_next_le_prev, C13_emissions_nonincreasing also across parameter changes), supply grows by exactly the emission, each sink receives its percentage rounded down, the module keeps emission minus the three floors which is < 3 units when ratios sum to 100 (C13_blockMint_spec, C13_retained_bound, C13_supply_grows_by_emissions). Tied to the code by a per-block correspondence on the assembled app's full BeginBlock.",
+        "note": "Trusted: Lean kernel (+3 standard axioms), harness/abs/driver tie, bank keeper as ledger, distribution BeginBlocker only sweeping the fee collector. Assumes validator-accepted parameters with ratio sum <= 100, a valid unblocked stipend address.",
+        "technique": "Lean 4 theorems over an exact sdk.Dec/BlockMint model, induction over block runs + per-block model/implementation correspondence",
+    },
 }
